@@ -153,6 +153,9 @@ def _propagate(case, masks):
     pre_field, pre_int = w.field, w.intensity
     out = lentil.propagate_dft(w, pixelscale=cm.as_ps(case["du"]), shape=tuple(case["out_shape"]),
                                oversample=case["oversample"], **kw)
+    if len(out.data) >= 2 and any(f.data.size == 1 for f in out.data):
+        # a tilted image clipped to one sample at the edge of the output (one-element field = constant; known finding)
+        raise Skip("single_sample_output_field(known)")
     return pre_field, pre_int, out.field, out.intensity
 
 
@@ -201,11 +204,16 @@ def segmented(case, ctx):
                                            f"and monolithic description by {cm.max_abs(s_pre - m_pre):.3e}")
     if cm.max_abs(s_pre_i - m_pre_i) > 1e-12 * peak_pre ** 2:
         raise Violation("C03.pupil.intensity", "pupil-plane intensity differs between descriptions")
+    # rounding floor of either summation order (an image that is dark everywhere in the window is pure rounding
+    # noise of the input: comparing it relative to its own peak is meaningless)
+    full_ = (case["out_shape"][0] * os_, case["out_shape"][1] * os_)
+    ref, tol, a = pm.fraunhofer(model, cm.ps_pair(case["dx"]), cm.ps_pair(case["du"]), wl, case["z"], os_, full_)
+    floor_tol = float(tol) * (1 + k)
     peak = max(cm.max_abs(m_f), 1e-300)
-    if s_f.shape != m_f.shape or cm.max_abs(s_f - m_f) > 1e-11 * peak + 1e-300:
+    if s_f.shape != m_f.shape or cm.max_abs(s_f - m_f) > 1e-11 * peak + 2 * floor_tol + 1e-300:
         raise Violation("C03.image.field", f"propagated field differs (k={k}, {case['kind']}): "
                                            f"{cm.max_abs(s_f - m_f):.3e} vs peak {peak:.3e}")
-    if cm.max_abs(s_i - m_i) > 1e-11 * peak ** 2 + 1e-300:
+    if cm.max_abs(s_i - m_i) > 1e-11 * peak ** 2 + 4 * floor_tol * (peak + floor_tol) + 1e-300:
         raise Violation("C03.image.intensity", f"propagated intensity differs (k={k}): segments are not added "
                                                f"coherently ({cm.max_abs(s_i - m_i):.3e} vs peak {peak ** 2:.3e})")
     if tilted:
@@ -213,7 +221,6 @@ def segmented(case, ctx):
     # reference
     full = (case["out_shape"][0] * os_, case["out_shape"][1] * os_)
     prop = case["out_shape"] if case["prop_shape"] is None else case["prop_shape"]
-    ref, tol, a = pm.fraunhofer(model, cm.ps_pair(case["dx"]), cm.ps_pair(case["du"]), wl, case["z"], os_, full)
     sel = pm.centred_window(full, (prop[0] * os_, prop[1] * os_))
     if case["omask"] is not None:
         sel = sel & pm.bbox_window(case["omask"])
